@@ -12,6 +12,9 @@
 (* tflag : the "is transcribed" flag                                       *)
 (* dirty : the method object carries state of an earlier transcription     *)
 (* out   : outcome of the last call                                        *)
+(* sol   : NoSol, or the declaration snapshot of the NLP the most recent   *)
+(*         solution object was obtained from, with cur = it still belongs  *)
+(*         to the live NLP                                                 *)
 (*                                                                         *)
 (* One action per public operation.  Devs is the set of enabled *named     *)
 (* deviations*: each describes a way in which an implementation departs    *)
@@ -21,8 +24,8 @@ EXTENDS Integers, Sequences, FiniteSets, TLC
 
 CONSTANTS Devs
 
-VARIABLES decl, live, tflag, dirty, out
-vars == <<decl, live, tflag, dirty, out>>
+VARIABLES decl, live, tflag, dirty, out, sol
+vars == <<decl, live, tflag, dirty, out, sol>>
 
 ConsIds == {"ka", "kb"}
 MaxCons == 3            \* the declared constraints form a sequence (declaring one twice yields two copies)
@@ -38,14 +41,16 @@ NoLive == [none |-> TRUE]
 
 Decl0 == [cons |-> <<"k0">>, nobj |-> 0, T |-> 1, t0 |-> 0, pval |-> 1, guess |-> 0, meth |-> "MS2", solver |-> "ipopt"]
 
-Init == /\ decl = Decl0 /\ live = NoLive /\ tflag = FALSE /\ dirty = FALSE /\ out = "ok"
+NoSol == [none |-> TRUE]
+Init == /\ decl = Decl0 /\ live = NoLive /\ tflag = FALSE /\ dirty = FALSE /\ out = "ok" /\ sol = NoSol
 
 (* every structural edit invalidates the cache *)
 (* the content of an invalidated cache is dead: no public operation can observe it *)
-Edit(d) == /\ decl' = d /\ tflag' = FALSE /\ live' = NoLive /\ out' = "ok" /\ UNCHANGED dirty
+Stale(s) == IF s = NoSol THEN NoSol ELSE [s EXCEPT !.cur = FALSE]
+Edit(d) == /\ decl' = d /\ tflag' = FALSE /\ live' = NoLive /\ out' = "ok" /\ sol' = Stale(sol) /\ UNCHANGED dirty
 (* an edit that (deviation dev) forgets to invalidate *)
 EditDev(d, dev) ==
-  IF dev \in Devs THEN /\ decl' = d /\ out' = "ok" /\ UNCHANGED <<live, tflag, dirty>>
+  IF dev \in Devs THEN /\ decl' = d /\ out' = "ok" /\ UNCHANGED <<live, tflag, dirty, sol>>
   ELSE Edit(d)
 
 SubjectTo(c)     == Len(decl.cons) < MaxCons /\ Edit([decl EXCEPT !.cons = Append(@, c)])
@@ -63,12 +68,12 @@ SetValue(v) ==
      THEN /\ live' = [live EXCEPT !.pval = v]
           /\ decl' = IF "SetValue_NotStored" \in Devs THEN decl ELSE [decl EXCEPT !.pval = v]
      ELSE /\ decl' = [decl EXCEPT !.pval = v] /\ UNCHANGED live
-  /\ out' = "ok" /\ UNCHANGED <<tflag, dirty>>
+  /\ out' = "ok" /\ UNCHANGED <<tflag, dirty, sol>>
 
 SetInitial(g) ==
   /\ decl' = [decl EXCEPT !.guess = g]
   /\ live' = IF tflag THEN [live EXCEPT !.guess = g] ELSE live
-  /\ out' = "ok" /\ UNCHANGED <<tflag, dirty>>
+  /\ out' = "ok" /\ UNCHANGED <<tflag, dirty, sol>>
 
 (* every query / solve first makes sure the cache is current *)
 Ensure ==
@@ -77,14 +82,28 @@ Ensure ==
        THEN /\ UNCHANGED <<live, tflag, dirty>> /\ out' = "raise"
        ELSE /\ live' = decl /\ tflag' = TRUE /\ dirty' = TRUE /\ out' = "ok"
 
-Sample   == Ensure /\ UNCHANGED decl
-Value    == Ensure /\ UNCHANGED decl
-Jacobian == Ensure /\ UNCHANGED decl
-Solve    == Ensure /\ UNCHANGED decl
+\* a re-transcription detaches earlier solution objects from the live NLP
+SolAfterEnsure == IF tflag' /\ ~tflag THEN Stale(sol) ELSE sol
+Sample   == Ensure /\ UNCHANGED decl /\ sol' = SolAfterEnsure
+Value    == Ensure /\ UNCHANGED decl /\ sol' = SolAfterEnsure
+Jacobian == Ensure /\ UNCHANGED decl /\ sol' = SolAfterEnsure
+\* the snapshot is only needed to describe the deviation; without deviations it is dropped (smaller state space)
+SolRec(d) == [d |-> IF Devs = {} THEN NoLive ELSE d, cur |-> TRUE]
+Solve    == Ensure /\ UNCHANGED decl /\ sol' = IF out' = "ok" THEN SolRec(live') ELSE SolAfterEnsure
+
+(* querying through the most recent solution object: it reads the NLP it was obtained from and
+   must not take part in the cache protocol; once that NLP is gone the query is rejected *)
+SolSample ==
+  /\ sol # NoSol
+  /\ IF ~tflag /\ "StaleSolRetranscribes" \in Devs
+     THEN \* deviation: the stale transcribed copy re-transcribes itself and is mistaken for the current one
+          /\ tflag' = TRUE /\ live' = sol.d /\ out' = "ok" /\ sol' = [sol EXCEPT !.cur = TRUE] /\ UNCHANGED <<decl, dirty>>
+     ELSE /\ out' = IF sol.cur /\ tflag THEN "ok" ELSE "raise"
+          /\ UNCHANGED <<decl, live, tflag, dirty, sol>>
 
 (* save untranscribes the original (allowed: it can be solved again afterwards);
    the loaded copy is a fresh object with the same declaration *)
-Save == /\ tflag' = FALSE /\ live' = NoLive /\ dirty' = FALSE /\ out' = "ok" /\ UNCHANGED decl
+Save == /\ tflag' = FALSE /\ live' = NoLive /\ dirty' = FALSE /\ out' = "ok" /\ sol' = Stale(sol) /\ UNCHANGED decl
 
 Next == \/ \E c \in ConsIds : SubjectTo(c)
         \/ ClearConstraints
@@ -95,7 +114,7 @@ Next == \/ \E c \in ConsIds : SubjectTo(c)
         \/ \E v \in T0vals : SetT0(v)
         \/ \E v \in Pvals : SetValue(v)
         \/ \E g \in Gvals : SetInitial(g)
-        \/ Sample \/ Value \/ Jacobian \/ Solve
+        \/ Sample \/ Value \/ Jacobian \/ Solve \/ SolSample
         \/ Save
 
 Spec == Init /\ [][Next]_vars
@@ -113,7 +132,7 @@ TypeOK == /\ decl \in [cons : ConsSeqs, nobj : 0..MaxObj, T : Tvals, t0 : T0vals
 CacheCurrent == tflag => live = decl
 
 (* C13.d : a change after a solve is honoured or rejected -- never a raise on a well-posed edit *)
-NeverRaises == out = "ok"
+NeverRaises == out = "ok" \/ (sol # NoSol /\ ~(sol.cur /\ tflag))   \* only a query through an outdated solution may be rejected
 
 (* C13.b : querying / solving twice changes nothing *)
 QueriesIdempotent == [][(tflag /\ (Sample \/ Value \/ Jacobian \/ Solve)) => UNCHANGED <<decl, live, tflag>>]_vars
